@@ -1,5 +1,8 @@
 import Rustic.Gen.Constants
+import Rustic.Lemmas.Backends
 import Rustic.Lemmas.Chunker
+import Rustic.Model.Backends
 import Rustic.Model.Chunker
 import Rustic.Model.Rabin
 import Rustic.Props.C06
+import Rustic.Props.C20
